@@ -4,9 +4,10 @@ EXTENDS Header, Json, SequencesExt
 
 ASSUME ndJsonSerialize("emit_vectors.ndjson",
          SetToSeq({[in |-> e, exp |-> Recovered(e)] : e \in EmitVectors(MaxStr)}))
+AV(h) == [in |-> h, exp |-> Expect(h), info |-> Recover(h)]
 ASSUME ndJsonSerialize("accept_vectors.ndjson",
-         SetToSeq({[in |-> h, exp |-> Expect(h)] :
-                     h \in AcceptVectors({"none", "decl", "space"}, {"absent", "valid", "invalid"})}))
+         SetToSeq({AV(h) : h \in AcceptVectors({"none", "decl", "space"}, {"absent", "valid", "invalid"})})
+         \o SetToSeq({AV(h) : h \in VersionVectors}) \o SetToSeq({AV(h) : h \in LookVectors}))
 
 (* sessions negotiated through one Negotiator value *)
 ASSUME ndJsonSerialize("emit_shared.ndjson",
